@@ -451,17 +451,29 @@ class SchemaIndex:
         return out
 
     def all_elem_decls(self, tag: str) -> list[ElemDecl]:
+        """every local declaration of / reference to an element of that name (a global declaration itself says nothing about
+        occurrence: it only contributes the type when the name is never used locally)"""
         ns, local = split_clark(tag)
-        out = []
+        out, global_only = [], []
         for root in self._roots:
-            if root.get('targetNamespace') != ns:
-                continue
             for e in root.iter(XSQ + 'element'):
-                if e.get('name') == local:
-                    mn = int(e.get('minOccurs', '1'))
-                    mx = e.get('maxOccurs', '1')
-                    out.append(ElemDecl(tag, mn, None if mx == 'unbounded' else int(mx), self._decl_type(e)))
-        return out
+                ref = e.get('ref')
+                if ref is not None:
+                    if self._qname(e, ref) != tag:
+                        continue
+                    target = self._elements.get(tag)
+                    typ = self._decl_type(target) if target is not None else None
+                elif e.get('name') == local and root.get('targetNamespace') == ns:
+                    typ = self._decl_type(e)
+                    if e.getparent() is root:
+                        global_only.append(ElemDecl(tag, 0, None, typ))
+                        continue
+                else:
+                    continue
+                mn = int(e.get('minOccurs', '1'))
+                mx = e.get('maxOccurs', '1')
+                out.append(ElemDecl(tag, mn, None if mx == 'unbounded' else int(mx), typ))
+        return out or global_only
 
 
 _RX_IMPLIED = re.compile(r'implied value[^".]*SHALL be "([^"]*)"')
@@ -580,15 +592,6 @@ _RX_NS = re.compile(r'\{[^}]*\}')
 
 def _short(msg: str) -> str:
     return _RX_NS.sub('', msg)[:300]
-
-
-def error_shape(messages: list[str]) -> str:
-    """stable shape of a validation error (values removed) for classification"""
-    if not messages:
-        return ''
-    m = messages[0]
-    m = re.sub(r"'[^']*'", "'..'", m)
-    return m[:160]
 
 
 _ORACLE = None
